@@ -73,6 +73,13 @@ CHECKS = {
         "note": "Virtual time; fakes (RabbitMQ FIFO-per-priority and requeue-to-original-position are server rules of the fake); single priority per run.",
         "ref": "DESIGN.md 5/C15",
     },
+    "C16": {
+        "level": "exploration",
+        "technique": "runtime monitoring: exhaustive bounded call sequences judged by a two-state handle machine with broker-call counting at the broker boundary",
+        "text": "Exhaustive for the stated bounds: all 258 sequences of <= 3 message-API calls (ack, nack, reject, reschedule, retry, force_retry) x 3 categories x 2 retry-budget states on handles from Queue.get_messages on the in-memory broker (<= 2 calls on the Redis/RabbitMQ brokers); each call's outcome (success / ValueError), the number and kind of top-level broker calls it caused (0 on refusal) and the read-only flag are compared with the model. Inside actors: all pre-sequences of <= 3 (quick) / 4 (thorough) set_result/set_exception/add_callback calls x 6 eager responses: callback order with the result store at the position of the latest set_*, stored outcome, no statement after the response, no second report.",
+        "note": "Bounded exhaustive (length 3 / 4); fakes for Redis/RabbitMQ.",
+        "ref": "DESIGN.md 5/C16",
+    },
     "C19": {
         "level": "exploration",
         "technique": "runtime monitoring: closed-form oracle over real function calls under an interposed, pinned wall clock",
